@@ -12,6 +12,7 @@ ASSUMPTIONS = [
     'transport = in-memory stub; the first F reads after connect return a symbolic number of bytes in [1, min(requested, available)]',
     'decode=True stage 1: bytes.decode is an uninterpreted function (equality by congruence), sat answers are refined with the exact UTF-8 model; stage 2: exact UTF-8 model (validated against CPython in selftest) for small totals',
     'command strings are concrete',
+    'two concurrent shell commands (asyncio tasks, all completion orders; threads with preemption bound 1): results that are returned are judged here, a timeout attributed to the known finding K1 is left to C06',
 ]
 BOUNDS = {
     'quick': 'APIs shell/exec_out/root/streaming_shell x decode x impl(sync,async); chunks k<=3, chunk length <=3, total <=6 symbolic bytes; foreign packets <=2 (all slots); F<=1 fragmented read; exact UTF-8 model for total<=3 bytes',
@@ -97,7 +98,9 @@ def h_service(ctx, mods, shape):
     ctx.check(not w.wire.over_reads, 'no read requests more bytes than remain in the current packet', detail=str(w.wire.over_reads[:2]))
 
 
-HARNESSES = {'service': h_service}
+from .c06 import h_threads, h_async
+
+HARNESSES = {'service': h_service, 'threads': h_threads, 'async': h_async}
 
 
 def _len_tuples(maxk, maxlen, maxtotal, minlen=0):
@@ -149,6 +152,12 @@ def shapes(tier, seed):
             for F in ((1,) if q else (1, 2)):
                 for api in ('shell', 'streaming_shell'):
                     out.append({'h': 'service', 'impl': impl, 'api': api, 'decode': False, 'lens': lens, 'frag': F})
+    # 7. two shell commands running concurrently: each returns exactly what the device wrote on ITS stream (a timeout caused by the
+    #    known finding K1 is reported by C06, not here)
+    sh2 = ['shell', {'lens': [1, 1]}]
+    out.append({'h': 'async', 'ops': [sh2, sh2], 'ignore_k1': True, 'max_paths': 60000})
+    out.append({'h': 'async', 'ops': [sh2, ['streaming_shell', {'lens': [1, 1]}]], 'ignore_k1': True, 'max_paths': 60000})
+    out.append({'h': 'threads', 'ops': [sh2, sh2], 'preempt': 1, 'yields': False, 'ignore_k1': True, 'max_paths': 60000})
     # 6. non-ASCII command string (concrete)
     for impl in impls:
         out.append({'h': 'service', 'impl': impl, 'api': 'shell', 'decode': False, 'lens': [2, 2], 'cmd': 'echo € \U0001F600'})
